@@ -133,12 +133,19 @@ class State:
             del self.copy[k]
 
 
-def place_key(p):
+def place_key(p, locals_=None):
     """Trackable key of a place: local + path of fields / downcasts; None if it goes through a
-    pointer or an index."""
+    mutable pointer or an index.  A leading deref of a *shared* reference local is allowed: the
+    referent cannot change while the reference is live (no interior mutability in this crate, C09-E1)."""
     path = []
-    for e in p["proj"]:
+    for n, e in enumerate(p["proj"]):
         k = e["k"]
+        if k == "deref" and n == 0 and locals_ is not None:
+            lt = locals_[p["local"]]["ty"]
+            if lt.get("k") == "ref" and not lt.get("mut"):
+                path.append("*")
+                continue
+            return None
         if k == "field":
             path.append(e.get("name", str(e["i"])) if "adt" in e else str(e["i"]))
         elif k == "downcast":
@@ -166,6 +173,9 @@ class Analyzer:
         self.sites = {}  # (fn path, bb) -> list[Site]
         self.ctx_count = {}
         self.extern_seen = {}
+        self.agg_obs = {}
+        self._recording = False
+        self._cur_locals = None
         self._mut_borrowed = set()
         self.assoc = self._assoc_consts()
         self.field_sets = {}
@@ -239,7 +249,7 @@ class Analyzer:
                             # copy / clone of the same field of another value of this type: adds no new value
                             pass
                         else:
-                            writes.setdefault(key, []).append(None)
+                            writes.setdefault(key, []).append(("observe", f.path))
                 # direct field writes
                 pr = s["place"]["proj"]
                 fl = [e for e in pr if e["k"] == "field" and "adt" in e]
@@ -263,11 +273,36 @@ class Analyzer:
                         if e["k"] == "field" and "adt" in e:
                             writes.setdefault((e["adt"], e["name"]), []).append(None)
         out = {}
+        pending = {}
         for key, ws in writes.items():
             if ws and all(w is not None for w in ws):
+                if any(w[0] == "observe" for w in ws):
+                    pending[key] = ws
+                    continue
                 iv = ws[0]
                 for w in ws[1:]:
                     iv = join(iv, w)
+                out[key] = iv
+        # second stage: operands that are neither constants nor constant-bound parameters are bounded by
+        # analysing the constructing function with unknown arguments and observing the operand's interval
+        self.field_sets = out
+        for key, ws in pending.items():
+            iv = None
+            okk = True
+            for w in ws:
+                if w[0] == "observe":
+                    fp = w[1]
+                    g = F.fns[fp]
+                    self.call_local(fp, [None] * g.arg_count)
+                    o = self.agg_obs.get((key[0], key[1], fp))
+                    if o is None:
+                        okk = False
+                        break
+                    iv = o if iv is None else join(iv, o)
+                else:
+                    iv = w if iv is None else join(iv, w)
+            if okk and iv is not None:
+                rng = None
                 out[key] = iv
         return out
 
@@ -359,10 +394,12 @@ class Analyzer:
             key, ctx, args, sub = key0, ctx0, [None] * f.arg_count, None
         self.ctx_count[path] = n + 1
         self.in_progress.add(key)
+        saved = (getattr(self, "_cur_locals", None), self._mut_borrowed)
         try:
             ret = self.analyze(f, args, ctx, sub)
         finally:
             self.in_progress.discard(key)
+            self._cur_locals, self._mut_borrowed = saved
         self.memo[key] = ret
         return ret
 
@@ -370,6 +407,7 @@ class Analyzer:
     def analyze(self, f, args, ctx, sub=None):
         nb = len(f.blocks)
         st0 = State()
+        self._cur_locals = f.locals
         for i in range(1, f.arg_count + 1):
             rng = ty_range(f.locals[i]["ty"])
             a = args[i - 1] if i - 1 < len(args) else None
@@ -493,7 +531,7 @@ class Analyzer:
 
     # --- evaluation helpers
     def place_iv(self, f, st, p):
-        key = place_key(p)
+        key = place_key(p, f.locals)
         ty = {"s": p["ty"]}
         rng = ty_range(ty)
         # element of a constant integer array
@@ -512,7 +550,10 @@ class Analyzer:
             if e["k"] == "field" and "adt" in e:
                 fs = self.field_sets.get((e["adt"], e["name"]))
                 if fs is not None and e is p["proj"][-1]:
-                    return meet(fs, rng) or fs
+                    base = meet(fs, rng) or fs
+                    if key is not None and key[0] not in self._mut_borrowed and key in st.v:
+                        return meet(base, st.v[key]) or base
+                    return base
                 break
         if key is not None and key[0] not in self._mut_borrowed:
             v = st.v.get(key)
@@ -532,7 +573,7 @@ class Analyzer:
         p = core.op_place(o)
         if p is None:
             return None
-        k = place_key(p)
+        k = place_key(p, self._cur_locals)
         if k is None or k[0] in self._mut_borrowed:
             return None
         return k
@@ -557,6 +598,7 @@ class Analyzer:
     # --- transfer
     def transfer_block(self, f, b, st, ctx, record):
         blk = f.blocks[b]
+        self._recording = record
         for s in blk["stmts"]:
             if s["k"] == "assign":
                 self.assign(f, st, s["place"], s["rv"])
@@ -581,7 +623,7 @@ class Analyzer:
         return [(s_, st) for s_ in f.succ[b]]
 
     def assign(self, f, st, place, rv):
-        dkey = place_key(place)
+        dkey = place_key(place)  # writes through any deref are not tracked
         k = rv["k"]
         dty = {"s": place["ty"]}
         rng = ty_range(dty)
@@ -650,6 +692,12 @@ class Analyzer:
             self.set_key(st, dkey, rng)
             return
         if k == "aggregate":
+            if self._recording and rv.get("agg") == "adt" and rv.get("crate") == core.LOCAL_CRATE:
+                for fname, o in zip(rv["fields"], rv["ops"]):
+                    if ty_range(self._op_ty(f, o)) is not None:
+                        iv = self.op_iv(f, st, o)
+                        key = (rv["path"], fname, f.path)
+                        self.agg_obs[key] = join(self.agg_obs[key], iv) if key in self.agg_obs and iv is not None else (iv if key not in self.agg_obs else None)
             st.kill(dkey)
             if dkey[0] in self._mut_borrowed:
                 return
